@@ -57,7 +57,7 @@ class Finding:
 SEMANTIC_RULES = {
     "C01": {"R1", "R3", "R4"},
     "C02": {"R2", "R3", "R5", "R7"},
-    "C03": {"R1", "R4", "R5", "R6"},
+    "C03": {"R1", "R4", "R5", "R6", "R7"},
     "C04": {"R1", "R2", "R3", "R4"},
     "C05": {"R1", "R2", "R3", "R6"},
     "C06": {"R2", "R3", "R4", "R5", "R8"},
